@@ -1,12 +1,28 @@
 #!/bin/bash
-# try_seed.sh <patch.diff> <tier> <ID>...   apply a seeded change to /repo, run the given checks, undo it
+# try_seed.sh <patch.diff> <tier> <ID>...   run the given checks against a seeded change.
+#
+# Default (TRY_IN_REPO unset): works on a scratch copy so that nothing else using /repo is disturbed:
+#   /tmp/try/repo  = scratch git worktree of /repo HEAD   /tmp/try/verif = copy of /verif (own build dirs),
+#   harness path dependency pointed at /tmp/try/repo.  The patch is applied there, the checks run there, it is undone.
+# TRY_IN_REPO=1: the literal procedure (git -C /repo apply; ./check ...; git -C /repo checkout -- .).
 set -u
-PATCH=$1; TIER=$2; shift 2
-cd /verif
-git -C /repo diff --quiet || { echo "/repo has uncommitted changes; refusing"; exit 2; }
-git -C /repo apply "$PATCH" || { echo "patch does not apply"; exit 2; }
-for id in "$@"; do
-  ./check $id $TIER 2>&1 | cut -c1-400 | tail -4
-done
-git -C /repo checkout -- .
-git -C /repo status --short | grep -v snap.new
+PATCH=$(readlink -f "$1"); TIER=$2; shift 2
+if [ "${TRY_IN_REPO:-}" = 1 ]; then
+  cd /verif
+  git -C /repo diff --quiet || { echo "/repo has uncommitted changes; refusing"; exit 2; }
+  git -C /repo apply "$PATCH" || { echo "patch does not apply"; exit 2; }
+  for id in "$@"; do ./check $id $TIER 2>&1 | cut -c1-400 | tail -4; done
+  git -C /repo checkout -- .
+  git -C /repo status --short | grep -v snap.new
+  exit 0
+fi
+T=/tmp/try
+mkdir -p $T
+if [ ! -d $T/repo ]; then git -C /repo worktree add --detach $T/repo HEAD >/dev/null 2>&1 || exit 2; fi
+git -C $T/repo checkout -q --detach $(git -C /repo rev-parse HEAD) 2>/dev/null; git -C $T/repo checkout -q -- .
+rsync -a --delete --exclude target --exclude .lake --exclude .scratch --exclude replays --exclude evidence --exclude .git /verif/ $T/verif/
+sed -i "s#path = \"/repo\"#path = \"$T/repo\"#" $T/verif/harness/Cargo.toml
+git -C $T/repo apply "$PATCH" || { echo "patch does not apply"; exit 2; }
+cd $T/verif
+for id in "$@"; do VERIF_REPO=$T/repo ./check $id $TIER 2>&1 | cut -c1-400 | tail -4; done
+git -C $T/repo checkout -q -- .
